@@ -189,6 +189,12 @@ C08_Resumable  == IsReq /\ Ev.mode = "P" /\ Ev.panic = "" /\ Ev.fpanic = "" /\ ~
 C08_RefusedContinuable == IsReq /\ Refused /\ ~Ev.cfg.first /\ Ev.mode \in {"L", "P"} /\ Ev.panic = "" /\ Ev.fpanic = "" /\ RPre.code # <<>> =>
                      /\ RPost.code = RPre.code /\ RPost2.code = RPre.code /\ NavProj(RPost2) = NavProj(RPre)
 
+\* ... and no accepted input (unknown selector, browsing past either end, ...) ends a session that the specification keeps alive:
+\* the session is blocked after the request exactly when the specification says so, and has pending code exactly when it says so
+C08_ReqContinuable == RJudged /\ ~Refused =>
+                     /\ (TERMINATE \in RPost.flags) = (TERMINATE \in RQ.e.s.flags)
+                     /\ (~Ev.err => ((RPost.code = <<>>) <=> (RQ.e.s.code = <<>>)))
+
 \* ---- C07: saving and loading changes nothing a later request can observe
 \* (Finish writes the session only if the engine object got through init: not after a refused first input, or a pre-VM check that stopped the request)
 C07_Snapshot == IsReq /\ Ev.mode = "P" /\ Ev.havesave /\ Ev.initd /\ Ev.panic = "" /\ Ev.fpanic = "" =>
